@@ -75,8 +75,11 @@ class Module:
         self.propagated = {}
         self.inlined, self.not_inlined = [], []
         if os.environ.get('SCMO_NO_NORMALIZE') != '1':
-            from .normalize import normalize
+            from .normalize import normalize, records_to_dicts
+            from . import propagate as _prop
+            nrec = records_to_dicts(self.tree, _prop.ref_globals().get(relpath))
             self.tree, self.norm_counts = normalize(self.tree)
+            self.norm_counts['records_to_dicts'] = nrec
             from . import alpha, inline
             self.grafted = self._graft_moved_functions(relpath, loader)
             self.inlined, self.not_inlined = inline.apply(self.tree, relpath, loader)
